@@ -22,7 +22,8 @@ def record(text, tid, name="file.c"):
     }
 
 
-_V = re.compile(r'<<"VERDICT", (\d+), (\d+), (\d+), (\d+), (\d+), \{(.*?)\}>>')
+# TLC wraps long tuples over several lines: match over the whole output
+_V = re.compile(r'<<\s*"VERDICT",\s*(\d+),\s*(\d+),\s*(\d+),\s*(\d+),\s*(\d+),\s*\{(.*?)\}\s*>>', re.S)
 
 
 def validate(traces, dev, name="lextrace", timeout=1800, chunks=16):
@@ -53,12 +54,12 @@ def validate(traces, dev, name="lextrace", timeout=1800, chunks=16):
     for r, part in zip(results, parts):
         if not r.ok:
             raise RuntimeError(f"TLC trace validation failed: {r.error or r.violated} ({r.stdout_path})")
-        for ln in r.prints:
-            m = _V.match(ln)
-            if m:
-                sites = set(re.findall(r'"([a-z0-9_]+)"', m.group(6)))
-                out[int(m.group(1))] = dict(c05=int(m.group(2)), c09=int(m.group(3)), c10=int(m.group(4)),
-                                            mach=int(m.group(5)), sites=sites)
+        with open(r.stdout_path, errors="replace") as fh:
+            text = fh.read()
+        for m in _V.finditer(text):
+            sites = set(re.findall(r'"([a-z0-9_]+)"', m.group(6)))
+            out[int(m.group(1))] = dict(c05=int(m.group(2)), c09=int(m.group(3)), c10=int(m.group(4)),
+                                        mach=int(m.group(5)), sites=sites)
         missing = [t["id"] for t in part if t["id"] not in out]
         if missing:
             raise RuntimeError(f"no verdict for traces {missing[:5]} ({r.stdout_path})")
